@@ -246,7 +246,9 @@ def d3_destroy(facts, rep):
             bd = set()
             for ap, avid, av, ainit in accs:
                 bd |= set(auto_dtor_positions(fn, avid))
-            ok2 = bool(bd) and every_path_passes(fn, 'entry', lambda p, e: p in bd, end=pos)[0]
+            # anchored on the ACQUISITION of the element lock (the blocking constructor), not on the destruction of the element
+            ok2 = bool(bd) and bool(lockers) and all(every_path_passes(fn, 'entry', lambda p, e: p in bd, end=lp)[0]
+                                                     for lp, vid, v, init in lockers)
             rep.ob('D3', 'K4', fn, 'the element lock is waited for outside the bucket lock scope', ok2,
                    'waiting for the element lock while holding the bucket lock can deadlock with an accessor holder that needs the bucket',
                    ln=node['ln'], key_extra='scope')
@@ -262,7 +264,37 @@ def d3_destroy(facts, rep):
             ok2, _ = dominated_by_edges(fn, pos, wr, extra_elem=lambda p, e: p in set(upg))
             rep.ob('D3', 'K4', fn, 'erase-by-accessor upgrades to the exclusive element lock and releases it before destroying the element',
                    ok and ok2, 'other const_accessor holders may still read the element when it is destroyed', ln=node['ln'])
-    rep.floor('D3', 3, 'destroy sites')
+    # lock order, whole class: a bucket lock (bucket_accessor) protects the chain for the moment; an element lock is held by the
+    # user for as long as an accessor lives.  Under a bucket lock an element lock may only be TRIED (lookup backs off and
+    # releases the bucket when the element is busy); a blocking acquisition there makes every operation on that bucket wait for
+    # a user-held accessor, and deadlocks when the accessor's owner is the one that needs the bucket.
+    from engine.rules import lockset
+    nblk = 0
+    for fn in facts.fns.values():
+        if not (fn.cls or '').startswith(D2 + 'concurrent_hash_map'):
+            continue
+        before, info = lockset(fn, lambda c: c.endswith('bucket_accessor'))
+        if not info:
+            continue
+        for pos, s, node, d in calls(fn, kinds=('ctor', 'call')):
+            nm = (d or {}).get('n')
+            blocking = (node.get('k') == 'ctor' and ((d or {}).get('cls') or '').endswith(('scoped_lock', 'scoped_type')) and node.get('a')) or \
+                (node.get('k') == 'call' and nm in ('acquire', 'lock', 'lock_shared'))
+            if not blocking or not node.get('a'):
+                continue
+            if last_member(fn, node['a'][0]) != 'mutex' or 'bucket' in fn.path(node['a'][0]):
+                continue
+            if (((d or {}).get('cls')) or '').endswith('bucket_accessor'):
+                continue
+            nblk += 1
+            held = before.get(pos, frozenset())
+            rep.ob('D3', 'K5', fn, 'a blocking acquisition of an element lock happens outside every bucket lock (line %s)' % node['ln'], not held,
+                   'bucket lock(s) %s held while waiting for an accessor to be released: all operations on the bucket stall behind a user-held '
+                   'accessor, deadlock if its owner needs the bucket' % sorted(info[v]['var'] for v in held), ln=node['ln'],
+                   key_extra='order|%s' % node['ln'])
+    if nblk < 1:
+        raise AnalysisBroken('concurrent_hash_map: no blocking element-lock acquisition found (internal_erase item_locker)')
+    rep.floor('D3', 4, 'destroy sites + lock order')
 
 
 def d4_typing(facts, rep):
